@@ -817,6 +817,49 @@ def rule_actions_reset(rep):
                 )
 
 
+# ------------------------------------------------------------------ R09.action-precedence
+def rule_action_precedence(rep):
+    with rep.rule(
+        "R09.action-precedence",
+        "in every step of Grammar._resolve_actions the actions given to the parser take precedence "
+        "over the grammar's companion module: a lookup by name in the module is preceded, on every "
+        "path, by the lookup of the same name in the overrides",
+    ) as r:
+        repo = rep.repo
+        f = repo.func("parglare.grammar.Grammar._resolve_actions")
+        loop = next((s_ for s_ in f.body if isinstance(s_, ast.For) and unparse(s_.iter) == "self"), None)
+        r.need(loop is not None, "_resolve_actions: loop over the symbols not found")
+        g = cfgmod.build_region(loop.body)
+        file_lookups = [(n, c) for n, c in g.nodes_calling("resolve_action_by_name")]
+        over = [(n, c) for n, c in g.nodes_calling("get") if unparse(c.func.value) == "action_overrides"]
+        r.floor("lookups in the companion module", len(file_lookups), 4)
+        r.floor("lookups in the overrides", len(over), 4)
+        over_T = g.test_edges(lambda e: unparse(e) == "action_overrides", "F")
+        for n, c in file_lookups:
+            key = unparse(c.args[0]) if c.args else "?"
+            same = [m for m, oc in over if oc.args and unparse(oc.args[0]) == key]
+            # every path to the module lookup either consulted the overrides for this key or there are none
+            reach = g.reach([g.entry], avoid_nodes=same, avoid_edges=over_T)
+            r.check(
+                bool(same) and n not in reach,
+                f"`{key}`: overrides consulted before the companion module",
+                f"_resolve_actions:precedence:{key}",
+                f"the companion module is asked for `{key}` on a path that has not asked the parser's own actions for "
+                f"`{key}` first: an action passed to Parser(actions=...) loses against a same-named action of "
+                "<grammar>_actions.py for this kind of name",
+                node=c,
+            )
+            # and the result of the override lookup is not overwritten when it was found
+            none_T = g.test_edges(lambda e: unparse(e) in ("action is None", "action == None"), "T")
+            r.check(
+                bool(none_T) and g.dominated_by_edges(n, none_T),
+                f"`{key}`: the module is asked only if nothing was found so far",
+                f"_resolve_actions:keep-found:{key}",
+                f"the module lookup for `{key}` can overwrite an action that was already found",
+                node=c,
+            )
+
+
 # ------------------------------------------------------------------ R15.markers
 def rule_markers(rep):
     with rep.rule(
